@@ -3,7 +3,7 @@
    Definitions only. *)
 From Coq Require Import String.
 From Coq Require Import List NArith ZArith Bool.
-From FIM Require Import Base.Str Model.Serial1Text Model.Serial1Graph.
+From FIM Require Import Base.Str Base.Json Model.Serial1Text Model.Serial1Graph Model.Serial1Json.
 Import ListNotations.
 
 Record case := {
@@ -13,7 +13,8 @@ Record case := {
   c_fmt : fmt;
   c_ep : entry;
   c_gid : str;                       (* graph id handed to the two re-stamping entry points *)
-  c_watch : list str                 (* graph ids whose content is read back afterwards *)
+  c_watch : list str;                (* graph ids whose content is read back afterwards *)
+  c_names : names                    (* the harness's interning table of property names (for the JSON text) *)
 }.
 
 (* a GraphML document as an independent parser sees it, with key ids resolved and edge ends named by
@@ -24,7 +25,12 @@ Record rdoc := {
   r_nodes : list (option str * list rdata);
   r_edges : list (option str * option str * option str * list rdata)    (* end, end, label, data *)
 }.
-Inductive ser_obs := SAbsent | SErr | SJsonText | SDoc (r : rdoc).
+Inductive ser_obs :=
+| SAbsent | SErr
+| SJsonText                 (* implementation side: a JSON text, not handed over (too large / lone surrogates) *)
+| SJsonReal (t : str)       (* implementation side: the real JSON text *)
+| SJsonDoc (j : jdoc)       (* model side: what node_link_data builds *)
+| SDoc (r : rdoc).
 
 Record obs := {
   o_loads : list res;
@@ -60,7 +66,7 @@ Definition ser_obs_of (t : option (option gtext)) : ser_obs :=
   | None => SAbsent
   | Some None => SErr
   | Some (Some (TGraphML d)) => match resolve_doc d with Some r => SDoc r | None => SErr end
-  | Some (Some (TJson _)) => SJsonText
+  | Some (Some (TJson j)) => SJsonDoc j
   | Some (Some TGarbage) => SErr
   end.
 
@@ -125,9 +131,18 @@ Definition rdoc_eqb (a b : rdoc) : bool :=
   perm_eqb kent_eqb (r_keys a) (r_keys b)
   && perm_eqb rnode_eqb (r_nodes a) (r_nodes b)
   && perm_eqb redge_eqb (r_edges a) (r_edges b).
-Definition ser_obs_eqb (a b : ser_obs) : bool :=
+(* model side first.  A real JSON text is parsed by Base/Json.v's model of json.loads, decoded through the
+   interning table and read by the model of node_link_graph; the graph it denotes must have the content of the
+   graph the model's own node-link document denotes *)
+Definition ser_obs_eqb (tbl : names) (a b : ser_obs) : bool :=
   match a, b with
-  | SAbsent, SAbsent | SErr, SErr | SJsonText, SJsonText => true
+  | SAbsent, SAbsent | SErr, SErr => true
+  | SJsonDoc _, SJsonText => true
+  | SJsonDoc j, SJsonReal t =>
+      match jread j, json_read_text tbl t with
+      | Some g, Some g' => content_eqb (content g) (content g')
+      | _, _ => false
+      end
   | SDoc x, SDoc y => rdoc_eqb x y
   | _, _ => false
   end.
@@ -139,11 +154,23 @@ Definition res_eqb (m i : res) : bool :=
   | _, _ => false
   end.
 
-Definition obs_eqb (m i : obs) : bool :=
+Definition obs_eqb (tbl : names) (m i : obs) : bool :=
   list_eqb res_eqb (o_loads m) (o_loads i)
-  && ser_obs_eqb (o_ser m) (o_ser i)
+  && ser_obs_eqb tbl (o_ser m) (o_ser i)
   && opt_eqb res_eqb (o_res m) (o_res i)
   && list_eqb (opt_eqb content_eqb) (o_graphs m) (o_graphs i)
-  && opt_eqb ser_obs_eqb (o_reser m) (o_reser i).
+  && opt_eqb (ser_obs_eqb tbl) (o_reser m) (o_reser i).
 
-Definition check (x : case * obs) : bool := obs_eqb (run (fst x)) (snd x).
+Definition check (x : case * obs) : bool := obs_eqb (c_names (fst x)) (run (fst x)) (snd x).
+
+(* models built through the library's own API (topologies, ARM / ADM graphs): besides agreeing with the model,
+   every such snapshot must lie in the domain of the theorems - graph_wf, non-empty NodeIDs, no structural JSON
+   names - and hold strings only (what the *_sliver_to_graph_properties_dict functions emit), with names and
+   strings fit for the JSON text theorem *)
+Definition all_strings (g : nxg) : bool :=
+  forallb (fun n => forallb (fun kv => match snd kv with PStr _ => true | _ => false end) (snd n)) (g_nodes g)
+  && forallb (fun e => forallb (fun kv => match snd kv with PStr _ => true | _ => false end) (snd e)) (g_edges g).
+Definition api_graph_ok (tbl : names) (g : nxg) : bool :=
+  graph_wf g && graph_ids_ok g && graph_json_ok g && all_strings g && names_ok tbl && graph_json_text_ok tbl g.
+Definition check_api (x : case * obs) : bool :=
+  forallb (fun p => api_graph_ok (c_names (fst x)) (snd p)) (c_pre (fst x)) && check x.
